@@ -256,7 +256,7 @@ func plant(text string) (string, int) {
 
 func TestC07(t *testing.T) {
 	hx.Main(t, "C07", func(r *hx.Run) {
-		r.Rule = "(a) exact positions: a diagnosed construct with an unambiguous offending token (lexer garbage character, parser unexpected token / end, undefined variable / function, wrong argument count, unknown key, invalid shell / permission / event / cron / glob value, `if:` without ${{ }}) is planted into a generated clean workflow by the position-recording emitter at a random leaf, after a random amount of text and 0-3 well-formed placeholders, in plain / single / double quoted style, block or flow, any indentation; reported line:column must equal the recorded one. (b) shift relation: a workflow with 1-4 seeded errors of many rules is rendered twice from the same tree with different layouts; every diagnostic sitting on a key/scalar must reappear at that token's new position with the same inner offset; plus repository testdata/err files with k comment lines inserted on top. (c) bounds 1<=line<=#lines, column>=1 on everything, including double-quoted scalars with \\n escapes. Non-trivial: (a) construct at column > 1 with preceding placeholder or quoting; (b) pair whose layouts differ; distinct = text hash."
+		r.Rule = "(a) exact positions: a diagnosed construct with an unambiguous offending token (lexer garbage character, parser unexpected token / end, undefined variable / function, wrong argument count, unknown key, invalid shell / permission / event / cron / glob value, `if:` without ${{ }}) is planted into a generated clean workflow by the position-recording emitter at a random leaf, after a random amount of text and 0-3 well-formed placeholders, in plain / single / double quoted style, block or flow, any indentation; at typed positions (bool / number / whole-section values) as a lone placeholder with 0-3 spaces around it inside the quotes; reported line:column must equal the recorded one. (b) shift relation: a workflow with 1-4 seeded errors of many rules is rendered twice from the same tree with different layouts; every diagnostic sitting on a key/scalar must reappear at that token's new position with the same inner offset; plus repository testdata/err files with k comment lines inserted on top. (c) bounds 1<=line<=#lines, column>=1 on everything, including double-quoted scalars with \\n escapes. Non-trivial: (a) construct at column > 1 with preceding placeholder or quoting; (b) pair whose layouts differ; distinct = text hash."
 		r.Assumptions = []string{"only single-line ASCII scalars without escape sequences are used for (a) and (b), as the statement restricts", "multi-line / escaped scalars only for the bounds clause"}
 		// (a) exact positions, expressions
 		r.Check(t, "exact-expression", hx.N(2500, 60000), func(rt *rapid.T) {
@@ -366,6 +366,59 @@ func TestC07(t *testing.T) {
 				q = "quoted"
 			}
 			r.Class("exact/" + e.what + "/" + q + fmt.Sprintf("/placeholders-before=%d", npl))
+			r.Sample(map[string]any{"leaf": info.Path, "value": val, "expected": fmt.Sprintf("%d:%d", c.Line, c.Col)})
+			if k, m := checkExactPosition(c); k != "" {
+				r.Fail(rt, k, m, "C07/exact", c)
+			}
+		})
+		// (a) exact positions, expressions standing for a typed value (bool / number / whole section):
+		// the lone placeholder may be surrounded by spaces inside the quotes
+		r.Check(t, "exact-expression-typed", hx.N(1200, 30000), func(rt *rapid.T) {
+			g := &wf.G{T: rt, Rare: true}
+			w := g.Workflow()
+			if rapid.Bool().Draw(rt, "shufflekeys") {
+				g.ShuffleKeys(w.Root)
+			}
+			var cand []*ye.Node
+			for _, lf := range scalarLeaves(w.Root) {
+				l := wf.LeafOf(lf)
+				if l.Template && l.Exempt == "" && l.Typed != "" {
+					cand = append(cand, lf)
+				}
+			}
+			if len(cand) == 0 {
+				r.Discard("no typed template leaf")
+				return
+			}
+			lf := cand[rapid.IntRange(0, len(cand)-1).Draw(rt, "leaf")]
+			info := wf.LeafOf(lf)
+			var es []int
+			for i, e := range c07Exprs {
+				t, _ := plant(e.text)
+				if strings.HasPrefix(t, "${{ ") && strings.Count(t, "${{") == 1 && e.what != "object-evaluated-in-template" {
+					es = append(es, i)
+				}
+			}
+			e := c07Exprs[es[rapid.IntRange(0, len(es)-1).Draw(rt, "expr")]]
+			text, off := plant(e.text)
+			lead := strings.Repeat(" ", rapid.SampledFrom([]int{0, 0, 1, 2, 3}).Draw(rt, "lead"))
+			trail := strings.Repeat(" ", rapid.SampledFrom([]int{0, 0, 1, 2}).Draw(rt, "trail"))
+			val := lead + text + trail
+			style := rapid.SampledFrom([]ye.Style{ye.Single, ye.Double}).Draw(rt, "style")
+			if strings.Contains(val, "'") {
+				style = ye.Double
+			}
+			if lead == "" && trail == "" && rapid.Bool().Draw(rt, "plain") {
+				style = ye.Auto
+			}
+			lf.Val, lf.Raw, lf.Style = val, "", style
+			src := ye.Emit(w.Root, g.Layout())
+			c := &c07Exact{YAML: src, Line: lf.Line, Col: lf.ContentCol + len(lead) + off, MsgSub: e.msg, What: e.what + "(typed-position)", Leaf: info.Path, Quoted: lf.ContentCol != lf.Col}
+			r.Eval()
+			if lead != "" {
+				r.NT(src)
+			}
+			r.Class(fmt.Sprintf("exact-typed/%s/leading-spaces=%d", info.Typed, len(lead)))
 			r.Sample(map[string]any{"leaf": info.Path, "value": val, "expected": fmt.Sprintf("%d:%d", c.Line, c.Col)})
 			if k, m := checkExactPosition(c); k != "" {
 				r.Fail(rt, k, m, "C07/exact", c)
